@@ -372,6 +372,7 @@ func (w *World) rulesV4Tables(out *[]Obligation) {
 	for K := 1; K <= 6; K++ {
 		inst := fmt.Sprintf("macroVector.EQ%d", K)
 		inputs := append([]string(nil), eqInputs[K]...)
+		usePartial := false
 		if len(retIdents) == 6 && retIdents[K-1] != nil {
 			extra := []string{}
 			for m := range deps[retIdents[K-1]] {
@@ -388,8 +389,11 @@ func (w *World) rulesV4Tables(out *[]Obligation) {
 			sort.Strings(extra)
 			inputs = append(inputs, extra...)
 		} else {
-			add(false, "R04.eq", inst, mv, "macroVector does not return six local variables: undecided")
-			continue
+			// no local variable to attribute dependencies to: the function is
+			// partially evaluated with every receiver bit outside the
+			// specification's inputs of this EQ unknown; a level that comes back
+			// known provably does not depend on them
+			usePartial = true
 		}
 		size := 1
 		for _, in := range inputs {
@@ -439,15 +443,29 @@ func (w *World) rulesV4Tables(out *[]Obligation) {
 					for j, in := range inputs {
 						codes[in] = rows[ri][j]
 					}
-					bytes, err := p.bytesFromCodes(codes)
-					if err != nil {
-						r.err = err
-						return
-					}
-					v, err := newCEnv(p, bytes).callFunc(mv, nil, mv)
-					if err != nil {
-						r.err = err
-						return
+					var v Val
+					if usePartial {
+						var err error
+						v, err = p.partialEval(mv, codes, nil)
+						if err != nil {
+							r.err = err
+							return
+						}
+						if v.K == VTuple && len(v.T) == 6 && v.T[K-1].K == VUnk {
+							r.err = fmt.Errorf("EQ%d is not determined by %v alone: it depends on other receiver bits", K, inputs)
+							return
+						}
+					} else {
+						bytes, err := p.bytesFromCodes(codes)
+						if err != nil {
+							r.err = err
+							return
+						}
+						v, err = newCEnv(p, bytes).callFunc(mv, nil, mv)
+						if err != nil {
+							r.err = err
+							return
+						}
 					}
 					if v.K != VTuple || len(v.T) != 6 || v.T[K-1].K != VInt {
 						r.err = fmt.Errorf("macroVector returned %s", v)
